@@ -547,6 +547,9 @@ def run(ctx: Ctx):
         ctx.check_time()
         check_cases(ctx, cases[i : i + 2000], py, "generated")
     push_in_negations_tie(ctx, 60 if ctx.tier == "quick" else 600)
+    import props.c09_rename as ren
+
+    ren.check_renaming(ctx, 600 if ctx.tier == "quick" else 12000)
     ctx.obligation("correspondence: isla rewrites == model rewrites (canonical) on all explored formulas", not ctx.violations)
     if not ok and not ctx.violations:
         ctx.violation("proof-obligation-broken", "a proof obligation of C09 no longer checks", {"broken": [n for n, o, _ in ctx.obligations if not o]}, found_input=False)
@@ -555,7 +558,7 @@ def run(ctx: Ctx):
         [
             "SMT atoms are opaque; the theorems assume z3_push_in_negations(s, True) denotes the negation of s (sampled against Z3 on every run)",
             "z3.simplify inside z3_push_in_negations leaves the generated atom shapes unchanged (checked by the decoder: unknown atoms are reported)",
-            "bound-variable renaming (ensure_unique_bound_variables) is not covered by a theorem yet",
+            "bound-variable renaming: the real ensure_unique_bound_variables is not modelled; each of its results is checked against its input by the proved alpha-equivalence checker (alphaEq_sound) and for uniqueness of binder names",
         ],
     )
 
